@@ -192,7 +192,7 @@ var NoBody = 0
 var StatusOK = 200
 type ResponseWriter interface{ Write([]byte) (int, error) }
 `,
-	"os":  "var PathSeparator = '/'\nvar Args []string\n",
+	"os": "var PathSeparator = '/'\nvar Args []string\n",
 	"time": `type T struct{}
 type Time = T
 func (T) Unix() int64      { return 0 }
